@@ -152,12 +152,12 @@ func binF[T float](op string, a, b T) Res {
 		if a != a || b != b {
 			return Res{Skip: true}
 		}
-		return Res{V: gMin(a, b)}
+		return Res{V: gMin(a, b), Approx: a == b} // equal operands (+0 and -0): either one is the minimum
 	case "MaxBetween":
 		if a != a || b != b {
 			return Res{Skip: true}
 		}
-		return Res{V: gMax(a, b)}
+		return Res{V: gMax(a, b), Approx: a == b}
 	}
 	panic("bad op " + op)
 }
